@@ -12,6 +12,12 @@ from hypothesis import strategies as st
 from vlib.gen_ir import descr, names, sentence
 
 scal = st.sampled_from(["int", "str", "float", "bool", "Optional[int]", "List[str]"])
+# annotations with brackets, parentheses, quotes, commas and operators inside (all valid where an annotation may stand)
+rich_ann = st.sampled_from([
+    "Annotated[int, Field(gt=0)]", "Tuple[()]", "Literal[(1, 2)]", "Union[int, type(None)]", "Callable[[int], str]",
+    "Dict[str, int]", "'Forward'", "int | None", "(int)", "Tuple[int, ...]", "os.PathLike",
+])
+ann = st.one_of(scal, scal, scal, rich_ann)
 lit = st.one_of(st.integers(-9, 199).map(repr), st.sampled_from(["'s'", '"t"', "None", "True", "0.5", "(1, 2)", "[]", "-3.5", "'a:b'", "')'", "lambda x: x"]))
 
 
@@ -19,7 +25,7 @@ lit = st.one_of(st.integers(-9, 199).map(repr), st.sampled_from(["'s'", '"t"', "
 def param(draw):
     return {
         "name": draw(names),
-        "ann": draw(st.one_of(st.none(), scal)),
+        "ann": draw(st.one_of(st.none(), ann)),
         "default": draw(st.one_of(st.none(), lit)),
         "doc": draw(descr),
         "doctyp": draw(st.one_of(st.none(), scal)),
@@ -85,7 +91,9 @@ def funcdef(draw, indent=0, method=False, depth=0, hazards=(), feat=None):
         deco.remove("classmethod")
     static = "staticmethod" in deco
     first = "cls" if "classmethod" in deco else "self"
-    ret_ann = draw(st.one_of(st.none(), scal))
+    ret_ann = draw(st.one_of(st.none(), ann))
+    if ret_ann and ret_ann not in scal.elements:
+        feat.append("rich-return-annotation")
 
     def fmt(p):
         return p["name"] + (": %s" % p["ann"] if p["ann"] else "") + ((" = %s" if p["ann"] else "=%s") % p["default"] if p["default"] is not None else "")
